@@ -37,7 +37,9 @@ PROPS = {
         level='proof',
         trusted_base=COMMON_TRUSTED + ['interface contracts of datatypes (proved per class under C01/C02)',
                                        'SecNode.get_module contract (C15)'],
-        uncovered=['generated module classes are abstracted by symbolic accessible tables (ModInv)'],
+        uncovered=['generated module classes are abstracted by symbolic accessible tables (ModInv); the generated check hooks'
+                   ' of real class layouts are exercised by the bounded stand-in'],
+        bounded=[CB('limit-layouts', 'contracts/linked.py', 'gens_linked', keys=['Dispatcher.handle_change'])],
     ),
     'C20': dict(
         contract_files=['contracts/logging.py'],
@@ -45,6 +47,14 @@ PROPS = {
         trusted_base=COMMON_TRUSTED + ['level tables of mlzlog (stated in the contract, validated bounded)'],
         uncovered=['Module.setRemoteLogging (parent walk over logger objects) and the dispatcher side of `logging` requests'],
         bounded=[CB('logging-contracts', 'contracts/logging.py', 'gens_logging')],
+    ),
+    'C18': dict(
+        contract_files=['contracts/linked.py'],
+        level='proof',
+        trusted_base=COMMON_TRUSTED + ['descriptor access to limit parameters (getattr yields the current parameter value)'],
+        uncovered=['struct/member cross-updates (extparams.StructParam), float-enum pairs, control hand-over (mixins.HasControlledBy): bounded / not covered',
+                   'installation of check_<p> hooks in __init_subclass__: bounded stand-in over 6 class layouts'],
+        bounded=[CB('limit-contracts', 'contracts/linked.py', 'gens_linked')],
     ),
     'C07': dict(
         contract_files=['contracts/protocol.py'],
